@@ -189,6 +189,7 @@ def stepLine (s : St) (toks : List String) : St × String :=
     match boolOf c, boolOf a, boolOf m, boolOf d with
     | some c, some a, some m, some d => (init c a m d, "ok")
     | _, _, _, _ => (s, "bad-op")
+  | ["state"] => (s, s!"enabled={if s.enabled then 1 else 0} {showKVs s.m}")
   | _ => match parseOp toks with
     | some op => let r := step s op; (r.1, showOut r.2)
     | none => (s, "bad-op")
